@@ -1702,8 +1702,8 @@ pub fn vec_eq_family() -> Vec<Prog> {
 /// enum classes, methods with their own type parameters, tail-recursive methods; and bounded generic
 /// functions, methods and classes instantiated with *instantiated generic classes*.
 pub fn method_value_family() -> Vec<Prog> {
-  let prelude = "interface Show { method show(): Str }\nclass Box<T>(val v: T) : Show {\n  method get(): T = this.v\n  method show(): Str = \"box\"\n  method <R> pair(r: R): Pair2<T, R> = Pair2.init(this.v, r)\n  method count(i: int, acc: int): int = if i <= 0 { acc } else { this.count(i - 1, acc + 1) }\n  method <A> fold(start: A, f: (A, T) -> A): A = f(start, this.v)\n}\nclass Cap {\n  function <A> sameName(b: Box<A>, f: (A) -> int): int = b.fold(0, (acc, v) -> acc + f(v))\n  function <Z> otherName(b: Box<Z>, f: (Z) -> int): int = b.fold(0, (acc, v) -> acc + f(v))\n}\nclass CapBox<A>(val inner: Box<A>) {\n  method viaClassParameter(f: (A) -> int): int = this.inner.fold(100, (acc, v) -> acc + f(v))\n}\nclass Pair2<A, B>(val a: A, val b: B) : Show {\n  method show(): Str = \"pair\"\n  method first(): A = this.a\n}\nclass Opt<T>(None, Some(T)) : Show {\n  method show(): Str = match this { None -> \"none\", Some(_) -> \"some\" }\n  method orElse(d: T): T = match this { None -> d, Some(t) -> t }\n}\nclass Counter(val step: int) : Show {\n  method show(): Str = \"counter\" :: Str.fromInt(this.step)\n  method count(i: int, acc: int): int = if i <= 0 { acc } else { this.count(i - 1, acc + this.step) }\n  method sumTo(other: Counter, i: int): int = if i <= 0 { this.step } else { other.sumTo(this, i - 1) }\n}\nclass Holder<T: Show>(val t: T) {\n  method describe(): Str = \"holder of \" :: this.t.show()\n  method <U: Show> both(u: U): Str = this.t.show() :: \"+\" :: u.show()\n}\nclass Util {\n  function <T: Show> describe(t: T): Str = \"it is \" :: t.show()\n  function <A: Show, B: Show> two(a: A, b: B): Str = a.show() :: \"&\" :: b.show()\n  function apply0(f: () -> int): int = f()\n  function apply2(f: (int, int) -> int): int = f(5, 0)\n}\n";
-  let cases: [(&str, &str); 24] = [
+  let prelude = "interface Show { method show(): Str }\nclass Box<T>(val v: T) : Show {\n  method get(): T = this.v\n  method show(): Str = \"box\"\n  method <R> pair(r: R): Pair2<T, R> = Pair2.init(this.v, r)\n  method count(i: int, acc: int): int = if i <= 0 { acc } else { this.count(i - 1, acc + 1) }\n  method <A> fold(start: A, f: (A, T) -> A): A = f(start, this.v)\n}\nclass Cap {\n  function <A> sameName(b: Box<A>, f: (A) -> int): int = b.fold(0, (acc, v) -> acc + f(v))\n  function <Z> otherName(b: Box<Z>, f: (Z) -> int): int = b.fold(0, (acc, v) -> acc + f(v))\n}\nclass CapBox<A>(val inner: Box<A>) {\n  method viaClassParameter(f: (A) -> int): int = this.inner.fold(100, (acc, v) -> acc + f(v))\n}\nclass Pair2<A, B>(val a: A, val b: B) : Show {\n  method show(): Str = \"pair\"\n  method first(): A = this.a\n}\nclass Opt<T>(None, Some(T)) : Show {\n  method show(): Str = match this { None -> \"none\", Some(_) -> \"some\" }\n  method orElse(d: T): T = match this { None -> d, Some(t) -> t }\n}\nclass Counter(val step: int) : Show {\n  method show(): Str = \"counter\" :: Str.fromInt(this.step)\n  method count(i: int, acc: int): int = if i <= 0 { acc } else { this.count(i - 1, acc + this.step) }\n  method sumTo(other: Counter, i: int): int = if i <= 0 { this.step } else { other.sumTo(this, i - 1) }\n}\nclass Holder<T: Show>(val t: T) {\n  method describe(): Str = \"holder of \" :: this.t.show()\n  method <U: Show> both(u: U): Str = this.t.show() :: \"+\" :: u.show()\n}\nclass Holds(val g: Grid, val k: int) {}\nclass Grid(val rows: int, val cols: int) {\n  method inside(r: int): bool = r >= 0 && this.rows > r\n  method count(f: (int) -> bool, r: int): int = if f(r) { 1 } else { 0 }\n  method viaThis(r: int): int = this.count((x) -> this.inside(x), r)\n  method viaThisAndLocal(r: int): int = { let shift = this.cols; this.count((x) -> this.inside(x - shift + this.cols), r) }\n  method viaNested(r: int): int = { let f = (a: int) -> (b: int) -> this.inside(a + b); this.count(f(0), r) }\n  method stored(r: int): int = { let h = Holds.init(this, r); if h.g.inside(h.k) { 1 } else { 0 } }\n}\nclass Drive {\n  function steps(g: Grid, r: int, n: int, mode: int): int =\n    if n <= 0 { 0 } else {\n      let here = if mode == 0 { g.viaThis(r) } else if mode == 1 { g.viaThisAndLocal(r) } else if mode == 2 { g.viaNested(r) } else { g.stored(r) };\n      here + Drive.steps(g, r + 1, n - 1, mode) + Drive.steps(g, r + 2, n - 2, mode)\n    }\n}\nclass Util {\n  function <T: Show> describe(t: T): Str = \"it is \" :: t.show()\n  function <A: Show, B: Show> two(a: A, b: B): Str = a.show() :: \"&\" :: b.show()\n  function apply0(f: () -> int): int = f()\n  function apply2(f: (int, int) -> int): int = f(5, 0)\n}\n";
+  let cases: [(&str, &str); 28] = [
     ("method of a generic struct class as a value", "let f = Box.init(41).get; Process.println(Str.fromInt(f() + 1));"),
     ("method of a generic struct class at Str as a value", "let f = Box.init(\"s\").get; Process.println(f());"),
     ("method of a generic class passed to a function", "Process.println(Str.fromInt(Util.apply0(Box.init(7).get)));"),
@@ -1728,6 +1728,11 @@ pub fn method_value_family() -> Vec<Prog> {
     ("bounded generic function as a value at an instantiated generic class", "let f: (Box<int>) -> Str = Util.describe; Process.println(f(Box.init(1)));"),
     ("generic method called from a generic function whose type parameter has the method's parameter name", "Process.println(Str.fromInt(Cap.sameName(Box.init(2), (x) -> x * 3) + Cap.otherName(Box.init(2), (x) -> x * 3)));"),
     ("generic method called from a generic method of a class whose type parameter has the method's parameter name", "Process.println(Str.fromInt(CapBox.init(Box.init(5)).viaClassParameter((x) -> x + 1)));"),
+    // methods that stay real functions (called from a recursive driver) and build closures over `this`
+    ("lambda capturing this in a method that is not inlined", "Process.println(Str.fromInt(Drive.steps(Grid.init(3, 3), 0, 3, 0)));"),
+    ("lambda capturing this and a local in a method that is not inlined", "Process.println(Str.fromInt(Drive.steps(Grid.init(2, 5), 1, 4, 1)));"),
+    ("nested lambda capturing this in a method that is not inlined", "Process.println(Str.fromInt(Drive.steps(Grid.init(4, 2), 0, 3, 2)));"),
+    ("this stored in a struct by a method that is not inlined", "Process.println(Str.fromInt(Drive.steps(Grid.init(4, 4), 0, 3, 3)));"),
   ];
   cases
     .iter()
@@ -1815,6 +1820,50 @@ pub fn target_names_family() -> Vec<Prog> {
   out
 }
 
+
+// ------------------------------------------------------------------------------------------------
+// constant expressions at and beyond the edges of the 32-bit range
+// ------------------------------------------------------------------------------------------------
+
+/// Arithmetic on literals (directly, through let-bound constants, through a function that gets inlined)
+/// whose exact result does not fit 32 bits, or that divides INT_MIN by -1: whatever the result is
+/// taken to be, the compiler must get through it (the run itself is compared only where the source
+/// semantics defines it).
+pub fn constant_edge_family() -> Vec<Prog> {
+  let exprs: [(&str, &str); 14] = [
+    ("max+1", "2147483647 + 1"),
+    ("min-1", "-2147483648 - 1"),
+    ("max*2", "2147483647 * 2"),
+    ("65536*65536", "65536 * 65536"),
+    ("min/-1", "-2147483648 / -1"),
+    ("min%-1", "-2147483648 % -1"),
+    ("min*-1", "-2147483648 * -1"),
+    ("0-min", "0 - -2147483648"),
+    ("max-(-1)", "2147483647 - -1"),
+    ("min/1", "-2147483648 / 1"),
+    ("max/-1", "2147483647 / -1"),
+    ("min%2", "-2147483648 % 2"),
+    ("max+min", "2147483647 + -2147483648"),
+    ("1/0-guarded", "if 0 == 0 { 7 } else { 1 / 0 }"),
+  ];
+  let mut out = vec![];
+  for (ename, e) in exprs {
+    for (pname, body) in [
+      ("literal", format!("    Process.println(Str.fromInt({e}));\n")),
+      ("let-bound", {
+        // the two operands bound first
+        format!("    let r = {e};\n    let s = r;\n    Process.println(Str.fromInt(s));\n")
+      }),
+      ("through-a-function", format!("    Process.println(Str.fromInt(Main.id({e})));\n")),
+      ("in-a-comparison", format!("    Process.println(if ({e}) > 0 {{ \"pos\" }} else {{ \"non-pos\" }});\n")),
+    ] {
+      let text = format!("class Main {{\n  function id(x: int): int = x\n  function main(): unit = {{\n    Process.println(\"start\");\n{body}    Process.println(\"end\")\n  }}\n}}\n");
+      out.push(Prog { family: "constant-edge", shape: format!("{ename} {pname}"), name: format!("constant edge {ename} {pname}"), text });
+    }
+  }
+  out
+}
+
 pub fn all_families(thorough: bool) -> Vec<Prog> {
   let mut v = vec![];
   v.extend(type_shape_family(thorough));
@@ -1834,6 +1883,7 @@ pub fn all_families(thorough: bool) -> Vec<Prog> {
   v.extend(method_value_family());
   v.extend(vec_eq_family());
   v.extend(tag_collision_family());
+  v.extend(constant_edge_family());
   v.extend(target_names_family());
   v.extend(vec_family(thorough));
   v.extend(string_family());
